@@ -100,7 +100,7 @@ def gen_c06(tier, rng):
         ops = rng.choices(["c", "s", "f"], weights=w, k=n)
         ops = [("x" if o == "c" and rng.random() < 0.3 else o) for o in ops]
         # the Ticker interface promises nothing about sign or origin: streams also start below zero and cross it
-        s.append(conc.Scn("a%d" % i, "breaker", tick_stream(rng, 4 * n + 8, start=rng.choice([0, 0, 0, -3, -10, -17, -25, -40])), [ops], "dfs 0 1", rand_cfg(rng)))
+        s.append(conc.Scn("a%d" % i, "breaker", tick_stream(rng, 4 * n + 8, start=rng.choice([0, 0, 0, -3, -10, -17, -25, -40, -(1 << 62) - 100, -(1 << 63) + 5])), [ops], "dfs 0 1", rand_cfg(rng)))
     s += gen_trip_boundary(tier, rng, scale(tier, 160, 0))
     # bounded-exhaustive: EVERY call sequence up to the bound, under a few configurations and ticker styles
     import itertools
@@ -176,6 +176,28 @@ def gen_c03(tier, rng):
         ticks = TRIP[1] + [20, 20] + [23, back] + [probe] * 40      # half-open deadline 23, its successor's deadline back + 3
         s.append(conc.Scn("h%d" % i, "breaker", ticks, ths, "dfs 2 %d" % scale(tier, 3000, 40000),
                           cfg_opts(listeners=1, expect_admitted=3, expect_mode="exact", expect_state="half-open")))
+    for i in range(n1):          # trial intervals that float64 cannot hold (2^53+1, 2^60+127, ...): rejected one tick before
+        # creation + interval, exactly one trial at it
+        T = rng.choice([(1 << 53) + 1, (1 << 60) + 127, (1 << 61) + 5, (1 << 55) + 3])      # 20 + 2T stays below 2^63 (documented boundary)
+        nt = rng.choice([2, 3])
+        ths = [TRIP[0] + ["c", "/"] + ["c"] * rng.choice([1, 2])] + [["/"] + ["c"] * rng.choice([1, 2]) for _ in range(nt - 1)]
+        if i % 2 == 0:           # one tick before creation + interval: nobody
+            ticks, exp = TRIP[1] + [20, 20] + [20 + T - 1] * 40, 1
+        else:                    # at creation + interval: exactly one more
+            ticks, exp = TRIP[1] + [20, 20] + [20 + T] * 40, 2
+        s.append(conc.Scn("i%d" % i, "breaker", ticks, ths, "dfs 2 %d" % scale(tier, 3000, 40000),
+                          cfg_opts(trial=T, listeners=1, expect_admitted=exp, expect_mode="exact", expect_state="half-open")))
+    for i in range(n1):          # readings 2^63 or more apart (the Ticker interface promises nothing): a deadline is compared
+        # with a reading as numbers, not by the sign of a wrapped difference
+        nt = rng.choice([2, 3])
+        ths = [TRIP[0] + ["/"] + ["c"] * rng.choice([1, 2])] + [["/"] + ["c"] * rng.choice([1, 2]) for _ in range(nt - 1)]
+        if i % 2 == 0:           # opened far below zero, looked at far above: the window HAS elapsed
+            off, probe, exp, mode = -(1 << 62) - 100, 1 << 62, 1, "exact"
+        else:                    # opened far above zero, the clock then reads far below: the window has NOT elapsed
+            off, probe, exp, mode = 1 << 62, -(1 << 62), 0, "atmost"
+        ticks = [t + off for t in TRIP[1]] + [probe] * 40
+        s.append(conc.Scn("j%d" % i, "breaker", ticks, ths, "dfs 2 %d" % scale(tier, 3000, 40000),
+                          cfg_opts(listeners=1, expect_admitted=exp, expect_mode=mode, expect_state="open")))
     for i in range(scale(tier, 20, 200)):   # free mix: lockstep with the model + rejection accounting
         nt = rng.choice([2, 3, 4])
         ths = [rng.choices(["c", "s", "f"], weights=(2, 1, 3), k=rng.choice([2, 3, 4])) for _ in range(nt)]
@@ -186,12 +208,12 @@ def gen_c03(tier, rng):
 def gen_long_window(tier):
     """one event per tick for n ticks (interval 1): hundreds (thorough: thousands) of buckets in the reservoir, all of them
     expiring in ONE roll after a gap longer than the window; judged by the reference window of the driver (the model replay of
-    such a script is quadratic: only the 700-bucket script of the thorough tier is replayed)"""
+    such a script is quadratic in time and memory: not replayed)"""
     out = []
     for n, window, jump in ([(700, 2000, 10 ** 6)] if tier == "quick" else [(700, 2000, 10 ** 6), (1500, 2000, 10 ** 6), (4300, 100000, 10 ** 7)]):
         ticks = [0] + list(range(1, n + 1)) + [jump, jump + 1]
         ops = ["ws" if i % 3 else "wf" for i in range(n)] + ["wf", "wc"]
-        out.append(conc.Scn("lw%d" % n, "window", ticks, [ops], "dfs 0 1", cfg_opts(window=window, interval=1, maxsteps=400000000, **({} if (tier != "quick" and n <= 700) else {"nomodel": 1}))))
+        out.append(conc.Scn("lw%d" % n, "window", ticks, [ops], "dfs 0 1", cfg_opts(window=window, interval=1, maxsteps=400000000, nomodel=1)))
     return out
 
 def gen_c10(tier, rng):
